@@ -181,7 +181,7 @@ def st_spec(draw, algo=None, known_exclusions=True):
             fam = draw(st.sampled_from([[1.0, 0.5, 2.0, 3.0], [1.0, 0.5, 2.0, 3.0], [1, 2, 3]]))
             spec["costs"] = [draw(st.sampled_from(fam)) for _ in range(m)]
             spec["budget"] = draw(st.sampled_from([3.0, 6.0, 10.0])) if algo == "DecoupledGP" else draw(st.sampled_from([None, 4.0, 12.0, 1000.0]))
-            if draw(st.integers(0, 2)) == 0:
+            if draw(st.booleans()):
                 # equal costs and a budget that is an exact multiple: the total cost reaches the budget exactly
                 c = spec["costs"][0]
                 spec["costs"] = [c] * m
